@@ -6,7 +6,7 @@ Small-step semantics of one write (`put_object`, `upload_part`, `complete_multip
 disk state, with a fault after any step; and of `n` writers to one key under any interleaving.
 
 The steps mirror the code (current tree, i.e. after 3229285 — checksums are compared *before* `done()` —,
-b01fec8 — a put without metadata removes the previous object's metadata file — and 0932917 —
+b01fec8 — a put without metadata removes the previous object's metadata file — and 0096ef4 —
 `complete_multipart_upload` validates first, assembles and renames, and only then moves the metadata, removes the part
 files and the upload record):
 
@@ -25,8 +25,8 @@ files and the upload record):
 | `dropPart`  | `complete_multipart_upload`, after the side files: `remove_file(part file)`, one per listed part        |
 | `consume`   | `complete_multipart_upload`, last: `delete_upload_id` (the upload record is removed)                    |
 | `saveMeta`  | `save_metadata` (`fs::write`, not atomic, after the rename) — request (`complete_multipart_upload`: upload, then also `delete_metadata(.., Some(id))`) with metadata |
-| `dropMeta`  | request / upload without metadata: `get_metadata_path` + `remove_file` of a metadata file left by the previous object (after the rename; fails if that path is a directory; `complete_multipart_upload`: since cf67827) |
-| `saveInfo`  | `save_internal_info` (`fs::write`, after the rename; `complete_multipart_upload`: an empty record, since cf67827) |
+| `dropMeta`  | request / upload without metadata: `get_metadata_path` + `remove_file` of a metadata file left by the previous object (after the rename; fails if that path is a directory; `complete_multipart_upload`: since 47e9b00) |
+| `saveInfo`  | `save_internal_info` (`fs::write`, after the rename; `complete_multipart_upload`: an empty record, since 47e9b00) |
 
 An error return and a dropped future both run `Drop for FileWriter`: the temporary file is removed iff a
 `FileWriter` with `clean_tmp = true` exists (`owned`).
